@@ -64,7 +64,7 @@ fn write_subword_fn<W: Write>(
                     $char_index += $literal.Length
                     continue outer
                 }}
-                if ($mode -ne 'matches' -And $literal.StartsWith($subword, [StringComparison]::OrdinalIgnoreCase)) {{
+                if ($mode -ne 'matches' -And $state_transitions.ContainsKey($literal_id) -And $literal.StartsWith($subword, [StringComparison]::OrdinalIgnoreCase)) {{
                     break outer
                 }}
                 if ($subword.StartsWith($literal, [StringComparison]::OrdinalIgnoreCase) -And $state_transitions.ContainsKey($literal_id)) {{
